@@ -254,6 +254,9 @@ def run(tier, seed, replay):
             if mi != ii or ex != r["rc"]:
                 disagreements.append((show, {"impl": (ii, r["rc"]), "model": (mi, ex)}))
     shutil.rmtree(d, ignore_errors=True)
+    okt, whatt = common.tie_phase(rep, "C19")
+    if not okt:
+        disagreements.append(({"regenerated_tie": True}, whatt))
     tie_broken = (not cr.ok) or model is None or disagreements
     if tie_broken and found == 0:
         what = []
